@@ -1,12 +1,728 @@
-//! C25 — not built yet.
-use crate::runner::{Outcome, Summary};
-use crate::Ctx;
-use serde_json::Value;
+//! C25 — computed schedules are as-soon-as-possible and frame-exclusive (spec/Schedule.tla).
+//!
+//! replay: TLC cases {frames, wfs, cals, src, flat, ok, items, total, spans, sdur} from
+//!         spec/mc/MC_Schedule.tla are realised as a real program; both entry points are run
+//!         (`ScheduledBasicBlock::as_schedule_seconds` on the calibration-expanded block,
+//!         `BasicBlock::as_schedule_seconds` on the source block) and compared with the model.
+//!         A mismatch is a VIOLATION only if the property itself (evaluated here on the real results, see
+//!         `property_failures`) is false; otherwise it is a divergence.
+//! drive:  seeded random blocks (longer, random durations, random calibrations, three frame tables); the real
+//!         instructions are abstracted structurally (`abs_instr`), the real Scheduled edges, the real items in
+//!         the order the scheduling loop pushed them and the real spans are recorded for
+//!         spec/trace/ScheduleTrace.tla.
+//!
+//! Shared with C35 (`super::c25::…`): program construction, `abs_instr`, `observe_block`.
 
-pub fn replay(_ctx: &Ctx, _case: &Value) -> Outcome {
-    panic!("C25: replay not implemented")
+use crate::runner::{Outcome, Summary, Violation};
+use crate::util::{self, arr, s};
+use crate::Ctx;
+use quil_rs::expression::Expression;
+use quil_rs::instruction::{
+    DefaultHandler, FrameIdentifier, Instruction, InstructionHandler, Qubit, WaveformInvocation,
+};
+use quil_rs::program::analysis::{BasicBlock, ControlFlowGraph};
+use quil_rs::program::scheduling::{ExecutionDependency, ScheduledBasicBlock, ScheduledGraphNode};
+use quil_rs::quil::Quil;
+use quil_rs::Program;
+use rand::seq::SliceRandom;
+use rand::Rng;
+use serde_json::{json, Value};
+use std::collections::{BTreeMap, BTreeSet};
+
+// ------------------------------------------------------------------------------ program construction
+
+pub fn frame_text(f: &Value) -> String {
+    let qs: Vec<String> = arr(f, "qubits").iter().map(|q| q.as_u64().unwrap().to_string()).collect();
+    let mut t = format!("DEFFRAME {} \"{}\":\n\tINITIAL-FREQUENCY: 1\n", qs.join(" "), s(f, "name"));
+    let rate = util::u(f, "rate");
+    if rate > 0 {
+        t.push_str(&format!("\tSAMPLE-RATE: {rate}\n"));
+    }
+    t
 }
 
-pub fn drive(_ctx: &Ctx) -> Summary {
-    panic!("C25: drive not implemented")
+pub fn waveform_text(w: &Value) -> String {
+    let n = util::u(w, "len") as usize;
+    format!("DEFWAVEFORM {}:\n\t{}\n", s(w, "name"), vec!["1"; n].join(", "))
+}
+
+/// `DEFCAL <head>:` with the given body lines.  An empty body is not expressible in Quil text, so the
+/// calibration is then built from a one-line body and emptied through the API.
+pub fn add_calibration(program: &mut Program, head: &str, body: &[String]) {
+    let text = if body.is_empty() {
+        format!("DEFCAL {head}:\n\tNOP\n")
+    } else {
+        format!("DEFCAL {head}:\n{}", body.iter().map(|b| format!("\t{b}\n")).collect::<String>())
+    };
+    let parsed = util::program(&text);
+    for i in parsed.to_instructions() {
+        match i {
+            Instruction::CalibrationDefinition(mut c) => {
+                if body.is_empty() {
+                    c.instructions.clear();
+                }
+                program.add_instruction(Instruction::CalibrationDefinition(c));
+            }
+            Instruction::MeasureCalibrationDefinition(mut c) => {
+                if body.is_empty() {
+                    c.instructions.clear();
+                }
+                program.add_instruction(Instruction::MeasureCalibrationDefinition(c));
+            }
+            other => panic!("calibration text produced {}", other.to_quil_or_debug()),
+        }
+    }
+}
+
+pub const DECLS: &str = "DECLARE ro BIT[4]\nDECLARE raw REAL[16]\n";
+
+/// A program with the given definition tables and body lines.
+pub fn build_program(frames: &[Value], wfs: &[Value], cals: &[Value], extra_header: &str, body: &[String]) -> Program {
+    let mut text = String::new();
+    for f in frames {
+        text.push_str(&frame_text(f));
+    }
+    for w in wfs {
+        text.push_str(&waveform_text(w));
+    }
+    text.push_str(DECLS);
+    text.push_str(extra_header);
+    let mut program = util::program(&text);
+    for c in cals {
+        let body: Vec<String> = arr(c, "body").iter().map(|b| b.as_str().unwrap().to_string()).collect();
+        add_calibration(&mut program, &s(c, "head"), &body);
+    }
+    for line in body {
+        program.add_instruction(util::instr(line));
+    }
+    program
+}
+
+// ------------------------------------------------------------------------------ abstraction function
+
+fn qubit_index(q: &Qubit) -> Value {
+    match q {
+        Qubit::Fixed(n) => json!(n),
+        other => panic!("only fixed qubits are in the C25 alphabet: {other:?}"),
+    }
+}
+
+pub fn frame_abs(f: &FrameIdentifier) -> Value {
+    json!({"name": f.name, "qubits": f.qubits.iter().map(qubit_index).collect::<Vec<_>>()})
+}
+
+/// exact small non-negative integer value of an expression, if it is one
+fn expr_int(e: &Expression) -> Option<i64> {
+    e.to_real().ok().and_then(as_int)
+}
+
+pub fn as_int(x: f64) -> Option<i64> {
+    if x.is_finite() && x.fract() == 0.0 && x.abs() < 1e9 {
+        Some(x as i64)
+    } else {
+        None
+    }
+}
+
+fn wf_abs(w: &WaveformInvocation) -> Value {
+    match w.parameters.get("duration").and_then(expr_int) {
+        Some(d) => json!({"t": "tmpl", "name": w.name, "dur": d,
+            "padl": w.parameters.get("pad_left").and_then(expr_int).unwrap_or(0),
+            "padr": w.parameters.get("pad_right").and_then(expr_int).unwrap_or(0)}),
+        None => json!({"t": "def", "name": w.name}),
+    }
+}
+
+/// Real instruction -> the structured instruction of spec/Schedule.tla (Part 1).
+pub fn abs_instr(i: &Instruction) -> Value {
+    let text = i.to_quil_or_debug();
+    let other = || json!({"k": "Other", "text": text});
+    match i {
+        Instruction::Pulse(p) => {
+            json!({"k": "Pulse", "text": text, "blocking": p.blocking, "frame": frame_abs(&p.frame), "wf": wf_abs(&p.waveform)})
+        }
+        Instruction::Capture(p) => {
+            json!({"k": "Capture", "text": text, "blocking": p.blocking, "frame": frame_abs(&p.frame), "wf": wf_abs(&p.waveform)})
+        }
+        Instruction::RawCapture(p) => match expr_int(&p.duration) {
+            Some(d) => json!({"k": "RawCapture", "text": text, "blocking": p.blocking, "frame": frame_abs(&p.frame), "dur": d}),
+            None => other(),
+        },
+        Instruction::Delay(d) => match expr_int(&d.duration) {
+            Some(x) => json!({"k": "Delay", "text": text, "qubits": d.qubits.iter().map(qubit_index).collect::<Vec<_>>(),
+                              "names": d.frame_names, "dur": x}),
+            None => other(),
+        },
+        Instruction::Fence(f) => json!({"k": "Fence", "text": text, "qubits": f.qubits.iter().map(qubit_index).collect::<Vec<_>>()}),
+        Instruction::SetFrequency(x) => json!({"k": "Set", "text": text, "frame": frame_abs(&x.frame)}),
+        Instruction::SetPhase(x) => json!({"k": "Set", "text": text, "frame": frame_abs(&x.frame)}),
+        Instruction::SetScale(x) => json!({"k": "Set", "text": text, "frame": frame_abs(&x.frame)}),
+        Instruction::ShiftFrequency(x) => json!({"k": "Set", "text": text, "frame": frame_abs(&x.frame)}),
+        Instruction::ShiftPhase(x) => json!({"k": "Set", "text": text, "frame": frame_abs(&x.frame)}),
+        Instruction::SwapPhases(x) => {
+            json!({"k": "Swap", "text": text, "frame": frame_abs(&x.frame_1), "frame2": frame_abs(&x.frame_2)})
+        }
+        // RESET q; a bare RESET depends on the program's used qubits and is not in any alphabet
+        Instruction::Reset(r) if r.qubit.is_some() => json!({"k": "Reset", "text": text, "qubits": [qubit_index(r.qubit.as_ref().unwrap())]}),
+        Instruction::Gate(_) => json!({"k": "Gate", "text": text}),
+        Instruction::Call(c) => json!({"k": "Call", "text": text, "ext": c.name}),
+        Instruction::Label(_) => json!({"k": "Label", "text": text}),
+        _ => other(),
+    }
+}
+
+/// 1-based index of a real frame identifier in the case's frame table (0 = not in the table)
+pub fn frame_index(frames: &[Value], id: &FrameIdentifier) -> u64 {
+    let a = frame_abs(id);
+    frames.iter().position(|f| f["name"] == a["name"] && f["qubits"] == a["qubits"]).map(|p| p as u64 + 1).unwrap_or(0)
+}
+
+// ------------------------------------------------------------------------------ observation
+
+#[derive(Clone, Debug)]
+pub struct BlockObs {
+    /// texts of the source block
+    pub src: Vec<String>,
+    /// real expansion of each source instruction (calibrations.expand, or the instruction itself)
+    pub exp: Vec<Vec<Instruction>>,
+    /// the expanded block
+    pub flat: Vec<Instruction>,
+    /// per flat instruction: frames used / blocked according to the real handler (1-based table indices)
+    pub used: Vec<BTreeSet<u64>>,
+    pub blocked: Vec<BTreeSet<u64>>,
+    /// Scheduled edges of the real graph between instruction nodes (0-based)
+    pub edges: BTreeSet<(usize, usize)>,
+    /// ScheduledBasicBlock::as_schedule_seconds on the expanded block: items in the order pushed, duration
+    pub flat_sched: Result<(Vec<(usize, f64, f64)>, f64), String>,
+    /// BasicBlock::as_schedule_seconds on the source block
+    pub src_sched: Result<(Vec<(usize, f64, f64)>, f64), String>,
+}
+
+/// Run both entry points on block `block_no` of `program`.
+pub fn observe_block(program: &Program, frames: &[Value], block_no: usize) -> Option<BlockObs> {
+    let handler = DefaultHandler;
+    let blocks = ControlFlowGraph::from(program).into_blocks();
+    let block: &BasicBlock = blocks.get(block_no)?;
+    let mut obs = BlockObs { src: vec![], exp: vec![], flat: vec![], used: vec![], blocked: vec![], edges: BTreeSet::new(),
+        flat_sched: Err(String::new()), src_sched: Err(String::new()) };
+    let mut expansion_failed = None;
+    for i in block.instructions() {
+        obs.src.push(i.to_quil_or_debug());
+        let e = match program.calibrations.expand(i, &[]) {
+            Ok(Some(v)) => v,
+            Ok(None) => vec![(*i).clone()],
+            Err(e) => {
+                expansion_failed = Some(e.to_string());
+                vec![(*i).clone()]
+            }
+        };
+        obs.flat.extend(e.iter().cloned());
+        obs.exp.push(e);
+    }
+    obs.src_sched = block
+        .as_schedule_seconds(program, &handler)
+        .map(|sch| {
+            let d = sch.duration().0;
+            (sch.items().iter().map(|it| (it.instruction_index, it.time_span.start_time.0, it.time_span.duration.0)).collect(), d)
+        })
+        .map_err(|e| e.to_string());
+    // the expanded block, scheduled directly
+    let mut expanded = program.clone_without_body_instructions();
+    for i in &obs.flat {
+        expanded.add_instruction(i.clone());
+    }
+    for i in &obs.flat {
+        let m = handler.matching_frames(&expanded, i);
+        obs.used.push(m.as_ref().map(|m| m.used.iter().map(|f| frame_index(frames, f)).collect()).unwrap_or_default());
+        obs.blocked.push(m.as_ref().map(|m| m.blocked.iter().map(|f| frame_index(frames, f)).collect()).unwrap_or_default());
+    }
+    obs.flat_sched = if let Some(e) = expansion_failed {
+        Err(e)
+    } else if obs.flat.is_empty() {
+        Ok((vec![], 0.0))
+    } else {
+        let eblocks = ControlFlowGraph::from(&expanded).into_blocks();
+        if eblocks.len() != 1 {
+            Err(format!("expanded block splits into {} blocks", eblocks.len()))
+        } else {
+            match ScheduledBasicBlock::build(eblocks.into_iter().next().unwrap(), &expanded, &handler) {
+                Err(e) => Err(e.to_string()),
+                Ok(sb) => {
+                    for (a, b, w) in sb.get_dependency_graph().all_edges() {
+                        if let (ScheduledGraphNode::InstructionIndex(a), ScheduledGraphNode::InstructionIndex(b)) = (a, b) {
+                            if w.contains(&ExecutionDependency::Scheduled) {
+                                obs.edges.insert((a, b));
+                            }
+                        }
+                    }
+                    sb.as_schedule_seconds(&expanded, &handler)
+                        .map(|sch| {
+                            let d = sch.duration().0;
+                            (sch.items().iter().map(|it| (it.instruction_index, it.time_span.start_time.0, it.time_span.duration.0)).collect(), d)
+                        })
+                        .map_err(|e| e.to_string())
+                }
+            }
+        }
+    };
+    Some(obs)
+}
+
+/// What the property needs to know about a flat instruction, independent of the real handler:
+/// frames used / blocked by the Quil-T rules and the documented duration (both from the specification).
+#[derive(Clone, Debug)]
+pub struct Summ {
+    pub used: BTreeSet<u64>,
+    pub blocked: BTreeSet<u64>,
+    pub dur: Option<i64>,
+}
+
+pub fn summ_of(v: &Value) -> Summ {
+    let set = |k: &str| arr(v, k).iter().map(|x| x.as_u64().unwrap()).collect::<BTreeSet<u64>>();
+    Summ { used: set("use"), blocked: set("blk"), dur: v["dur"].get("some").and_then(|d| d.as_i64()) }
+}
+
+fn conflict(a: &Summ, b: &Summ) -> bool {
+    a.used.iter().any(|f| b.used.contains(f) || b.blocked.contains(f)) || b.used.iter().any(|f| a.used.contains(f) || a.blocked.contains(f))
+}
+
+/// The property C25 evaluated directly on the real results (both Ok).  Returns (observable, note) per failure.
+pub fn property_failures(summ: &[Summ], obs: &BlockObs) -> Vec<(String, String)> {
+    let mut fails = vec![];
+    let n = summ.len();
+    if let Ok((items, total)) = &obs.flat_sched {
+        let mut by: BTreeMap<usize, Vec<(f64, f64)>> = BTreeMap::new();
+        for (i, st, d) in items {
+            by.entry(*i).or_default().push((*st, *d));
+        }
+        let once = items.len() == n && (0..n).all(|j| by.get(&j).map(|v| v.len()) == Some(1));
+        if !once {
+            fails.push(("each_once".into(), format!("{} items for {} timed instructions: {:?}", items.len(), n, items)));
+            return fails;
+        }
+        let st = |j: usize| by[&j][0].0;
+        let en = |j: usize| by[&j][0].0 + by[&j][0].1;
+        for j in 0..n {
+            if summ[j].dur.map(|d| d as f64) != Some(by[&j][0].1) {
+                fails.push(("documented_duration".into(),
+                    format!("instruction {j} `{}` has duration {} instead of {:?}", obs.flat[j].to_quil_or_debug(), by[&j][0].1, summ[j].dur)));
+            }
+            // starts when its last timed predecessor (in the real graph) ends, or at 0
+            let want = obs.edges.iter().filter(|e| e.1 == j).map(|e| en(e.0)).fold(0.0, f64::max);
+            if st(j) != want {
+                fails.push(("asap_start".into(),
+                    format!("instruction {j} starts at {} but its last Scheduled predecessor ends at {want}", st(j))));
+            }
+            for i in 0..j {
+                if conflict(&summ[i], &summ[j]) && st(i) < en(j) && st(j) < en(i) {
+                    fails.push(("frame_exclusive".into(),
+                        format!("instructions {i} [{}, {}) and {j} [{}, {}) share a frame and overlap", st(i), en(i), st(j), en(j))));
+                }
+            }
+        }
+        let max_end = (0..n).map(en).fold(0.0, f64::max);
+        if *total != max_end {
+            fails.push(("duration_is_max_end".into(), format!("duration {total}, latest end {max_end}")));
+        }
+        // spans of the source instructions
+        if let Ok((spans, sdur)) = &obs.src_sched {
+            let mut first = 0usize;
+            let mut sby: BTreeMap<usize, Vec<(f64, f64)>> = BTreeMap::new();
+            for (i, a, d) in spans {
+                sby.entry(*i).or_default().push((*a, *d));
+            }
+            for (k, e) in obs.exp.iter().enumerate() {
+                let idx: Vec<usize> = (first..first + e.len()).collect();
+                first += e.len();
+                let got = sby.remove(&k).unwrap_or_default();
+                if idx.is_empty() {
+                    if !got.is_empty() {
+                        fails.push(("spans_cover".into(), format!("source instruction {k} expanded to nothing but has span {got:?}")));
+                    }
+                    continue;
+                }
+                let lo = idx.iter().map(|&j| st(j)).fold(f64::INFINITY, f64::min);
+                let hi = idx.iter().map(|&j| en(j)).fold(0.0, f64::max);
+                if got.len() != 1 || got[0].0 != lo || got[0].0 + got[0].1 != hi {
+                    fails.push(("spans_cover".into(),
+                        format!("source instruction {k} `{}` has span {got:?}, its expansion covers [{lo}, {hi})", obs.src[k])));
+                }
+            }
+            if !sby.is_empty() {
+                fails.push(("spans_cover".into(), format!("spans for non-existent source instructions: {sby:?}")));
+            }
+            let smax = spans.iter().map(|x| x.1 + x.2).fold(0.0, f64::max);
+            if *sdur != smax {
+                fails.push(("duration_is_max_end".into(), format!("source-level duration {sdur}, latest span end {smax}")));
+            }
+        }
+    }
+    fails
+}
+
+fn sched_json(r: &Result<(Vec<(usize, f64, f64)>, f64), String>) -> Value {
+    match r {
+        Ok((items, d)) => json!({"ok": items.iter().map(|(i, a, b)| json!([i, a, b])).collect::<Vec<_>>(), "duration": d}),
+        Err(e) => json!({"err": e}),
+    }
+}
+
+// ------------------------------------------------------------------------------ replay
+
+pub fn replay(_ctx: &Ctx, case: &Value) -> Outcome {
+    if let Some(h) = case.get("history") {
+        return replay_history(h);
+    }
+    let frames = arr(case, "frames");
+    let src: Vec<String> = arr(case, "src").iter().map(|x| x.as_str().unwrap().to_string()).collect();
+    if src.is_empty() {
+        return Outcome::ok(false); // an empty body has no basic block
+    }
+    let program = build_program(frames, arr(case, "wfs"), arr(case, "cals"), "", &src);
+    let obs = observe_block(&program, frames, 0).expect("one block");
+    let want_flat = arr(case, "flat");
+    let summ: Vec<Summ> = want_flat.iter().map(summ_of).collect();
+    let want_ok = case["ok"].as_bool().unwrap();
+    let timed = summ.iter().filter(|x| x.dur.is_some()).count();
+    let mut o = Outcome::ok(want_ok && timed >= 2 && obs.flat_sched.is_ok());
+    if obs.exp.iter().any(|e| e.len() != 1) {
+        o.count("calibrated_blocks");
+    }
+
+    // the expansion and the frame summaries are other properties' business (C17, C26): informational
+    let flat_texts: Vec<String> = obs.flat.iter().map(|i| i.to_quil_or_debug()).collect();
+    // (canonical printed form of the model's text)
+    let want_texts: Vec<String> = want_flat.iter().map(|x| util::instr(&s(x, "text")).to_quil_or_debug()).collect();
+    if flat_texts != want_texts {
+        o.diverge(format!("expanded block differs from the model: {flat_texts:?} vs {want_texts:?}"));
+        return o;
+    }
+    for (j, sm) in summ.iter().enumerate() {
+        // (the frames of an instruction without a duration never matter for a schedule)
+        if sm.dur.is_some() && (sm.used != obs.used[j] || sm.blocked != obs.blocked[j]) {
+            o.diverge(format!("matching_frames of `{}`: used {:?} blocked {:?}, Quil-T rules of the model: {:?} / {:?}",
+                flat_texts[j], obs.used[j], obs.blocked[j], sm.used, sm.blocked));
+        }
+    }
+    match (&obs.flat_sched, &obs.src_sched, want_ok) {
+        (Err(_), Err(_), false) => {
+            o.count("err_cases");
+            return o;
+        }
+        (Ok(_), Ok(_), true) => {}
+        (a, b, _) => {
+            // the statement is conditional on the schedule being computable: Ok/Err is not its observable,
+            // unless the two entry points disagree with each other on a block without calibrations
+            o.count("ok_err_mismatch");
+            o.diverge(format!("model ok={want_ok}, expanded-block call {}, source-block call {}",
+                if a.is_ok() { "Ok" } else { "Err" }, if b.is_ok() { "Ok" } else { "Err" }));
+            if !(a.is_ok() && b.is_ok()) {
+                return o;
+            }
+        }
+    }
+    // both real calls Ok: compare with the model
+    let (items, total) = obs.flat_sched.as_ref().unwrap();
+    let (spans, sdur) = obs.src_sched.as_ref().unwrap();
+    let mut same = want_ok;
+    if want_ok {
+        let want_items = arr(case, "items");
+        let mut got: Vec<Option<(f64, f64)>> = vec![None; want_items.len()];
+        for (i, a, d) in items {
+            if *i < got.len() && got[*i].is_none() {
+                got[*i] = Some((*a, *d));
+            } else {
+                same = false;
+            }
+        }
+        for (j, w) in want_items.iter().enumerate() {
+            if got[j] != Some((w["start"].as_f64().unwrap(), w["dur"].as_f64().unwrap())) {
+                same = false;
+            }
+        }
+        same = same && items.len() == want_items.len() && Some(*total) == case["total"].as_f64();
+        let want_spans = arr(case, "spans");
+        let mut sgot: BTreeMap<usize, (f64, f64)> = BTreeMap::new();
+        for (i, a, d) in spans {
+            if sgot.insert(*i, (*a, *d)).is_some() {
+                same = false;
+            }
+        }
+        for (k, w) in want_spans.iter().enumerate() {
+            let ws = w.get("some").map(|x| (x["start"].as_f64().unwrap(), x["dur"].as_f64().unwrap()));
+            if sgot.remove(&k) != ws {
+                same = false;
+            }
+        }
+        same = same && sgot.is_empty() && Some(*sdur) == case["sdur"].as_f64();
+    }
+    // the property is evaluated on every real result (with the model's summaries: Quil-T frame sets, documented
+    // durations); a difference from the model's schedule that satisfies it is only a divergence
+    let fails = if summ.iter().all(|x| x.dur.is_some()) { property_failures(&summ, &obs) } else { vec![] };
+    if !same || !fails.is_empty() {
+        let got = json!({"expanded_block": sched_json(&obs.flat_sched), "source_block": sched_json(&obs.src_sched)});
+        let want = json!({"items": case["items"], "total": case["total"], "spans": case["spans"], "sdur": case["sdur"]});
+        if fails.is_empty() {
+            o.diverge(format!("schedule differs from the model but satisfies the property: {got}"));
+        } else {
+            let note = fails.iter().map(|f| f.1.clone()).collect::<Vec<_>>().join("; ");
+            o.violate(Violation::new(&fails[0].0, want, got).note(note));
+        }
+    }
+    o
+}
+
+/// Replay of a history rejected by trace validation: re-run the recorded block and evaluate the property.
+fn replay_history(h: &Value) -> Outcome {
+    let reset = &h[0];
+    let frames = arr(reset, "frames");
+    let wfs = arr(reset, "wfs");
+    let src: Vec<String> = arr(reset, "src").iter().map(|x| s(x, "text")).collect();
+    let program = build_program(frames, wfs, arr(reset, "cals"), "", &src);
+    let mut o = Outcome::ok(true);
+    if let Some(obs) = observe_block(&program, frames, 0) {
+        let summ = quilt_summaries(&obs, frames, wfs);
+        if obs.flat_sched.is_ok() && summ.iter().all(|x| x.dur.is_some()) {
+            for f in property_failures(&summ, &obs) {
+                o.violate(Violation::new(&f.0, json!("property C25"), json!({"expanded_block": sched_json(&obs.flat_sched),
+                    "source_block": sched_json(&obs.src_sched)})).note(f.1));
+            }
+        }
+    }
+    o
+}
+
+/// The Quil-T frame rules and documented durations of spec/Schedule.tla (Part 1), re-stated on the structured
+/// instruction: used where no TLC-computed summaries exist (drive, replay of a recorded history).
+pub fn quilt_summ(i: &Value, frames: &[Value], wfs: &[Value]) -> Summ {
+    let qset = |v: &Value| v.as_array().unwrap().iter().map(|q| q.as_u64().unwrap()).collect::<BTreeSet<u64>>();
+    let all = || (1..=frames.len() as u64).collect::<BTreeSet<u64>>();
+    let any_of = |qs: &BTreeSet<u64>| {
+        all().into_iter().filter(|n| !qset(&frames[*n as usize - 1]["qubits"]).is_disjoint(qs)).collect::<BTreeSet<u64>>()
+    };
+    let exact = |qs: &BTreeSet<u64>| all().into_iter().filter(|n| qset(&frames[*n as usize - 1]["qubits"]) == *qs).collect::<BTreeSet<u64>>();
+    let specific = |f: &Value| {
+        all().into_iter().filter(|n| frames[*n as usize - 1]["name"] == f["name"] && frames[*n as usize - 1]["qubits"] == f["qubits"]).collect::<BTreeSet<u64>>()
+    };
+    let k = i["k"].as_str().unwrap();
+    let play = matches!(k, "Pulse" | "Capture" | "RawCapture");
+    let used: BTreeSet<u64> = match k {
+        "Pulse" | "Capture" | "RawCapture" | "Set" => specific(&i["frame"]),
+        "Swap" => specific(&i["frame"]).union(&specific(&i["frame2"])).cloned().collect(),
+        "Delay" => {
+            let e = exact(&qset(&i["qubits"]));
+            let names: Vec<&str> = i["names"].as_array().unwrap().iter().map(|x| x.as_str().unwrap()).collect();
+            if names.is_empty() { e } else { e.into_iter().filter(|n| names.contains(&frames[*n as usize - 1]["name"].as_str().unwrap())).collect() }
+        }
+        "Fence" => {
+            let qs = qset(&i["qubits"]);
+            if qs.is_empty() { all() } else { any_of(&qs) }
+        }
+        "Reset" => exact(&qset(&i["qubits"])),
+        _ => BTreeSet::new(),
+    };
+    let blocked: BTreeSet<u64> = if play && i["blocking"].as_bool().unwrap() {
+        any_of(&qset(&i["frame"]["qubits"])).difference(&used).cloned().collect()
+    } else if k == "Reset" {
+        any_of(&qset(&i["qubits"])).difference(&used).cloned().collect()
+    } else {
+        BTreeSet::new()
+    };
+    let dur = match k {
+        "Pulse" | "Capture" => {
+            let wf = &i["wf"];
+            match wfs.iter().find(|w| w["name"] == wf["name"]) {
+                Some(w) => {
+                    let rates: BTreeSet<u64> = used.iter().map(|n| frames[*n as usize - 1]["rate"].as_u64().unwrap()).filter(|r| *r > 0).collect();
+                    if rates.len() == 1 { Some((w["len"].as_u64().unwrap() / rates.iter().next().unwrap()) as i64) } else { None }
+                }
+                None if wf["t"] == "tmpl" => Some(wf["dur"].as_i64().unwrap() + wf["padl"].as_i64().unwrap() + wf["padr"].as_i64().unwrap()),
+                None => None,
+            }
+        }
+        "Delay" | "RawCapture" => i["dur"].as_i64(),
+        "Fence" | "Set" | "Swap" => Some(0),
+        _ => None,
+    };
+    Summ { used, blocked, dur }
+}
+
+fn quilt_summaries(obs: &BlockObs, frames: &[Value], wfs: &[Value]) -> Vec<Summ> {
+    obs.flat.iter().map(|i| quilt_summ(&abs_instr(i), frames, wfs)).collect()
+}
+
+// ------------------------------------------------------------------------------ drive
+
+pub fn frame_tables() -> Vec<Vec<Value>> {
+    let f = |name: &str, qubits: &[u64], rate: u64| json!({"name": name, "qubits": qubits, "rate": rate});
+    vec![
+        vec![f("a", &[0], 2), f("b", &[0], 4), f("a", &[1], 2), f("c", &[0, 1], 0)],
+        vec![f("a", &[0], 1), f("a", &[1], 1), f("a", &[2], 2), f("c", &[0, 1], 2), f("c", &[1, 2], 1), f("b", &[1], 1)],
+        vec![f("x", &[0], 2), f("y", &[0], 2), f("x", &[0, 1, 2], 4)],
+    ]
+}
+
+fn frame_ref(r: &mut impl Rng, frames: &[Value]) -> String {
+    // mostly defined frames, sometimes an undefined one
+    if r.gen_range(0..12) == 0 {
+        return "3 \"nowhere\"".to_string();
+    }
+    let f = frames.choose(r).unwrap();
+    let qs: Vec<String> = arr(f, "qubits").iter().map(|q| q.to_string()).collect();
+    format!("{} \"{}\"", qs.join(" "), s(f, "name"))
+}
+
+fn some_qubits(r: &mut impl Rng) -> String {
+    let mut qs: Vec<u64> = (0..3).filter(|_| r.gen_bool(0.45)).collect();
+    if qs.is_empty() {
+        qs.push(r.gen_range(0..3));
+    }
+    qs.iter().map(|q| q.to_string()).collect::<Vec<_>>().join(" ")
+}
+
+/// one timed instruction (as Quil text) over the frame table
+pub fn random_timed(r: &mut impl Rng, frames: &[Value], wf_names: &[String]) -> String {
+    let nb = if r.gen_bool(0.5) { "NONBLOCKING " } else { "" };
+    let d = r.gen_range(0..=5);
+    let names: Vec<String> = frames.iter().map(|f| s(f, "name")).collect();
+    match r.gen_range(0..100) {
+        0..=24 => {
+            let wf = match r.gen_range(0..10) {
+                0 | 3 if !wf_names.is_empty() => wf_names.choose(r).unwrap().clone(),
+                1 => format!("erf_square(duration: {d}, pad_left: {}, pad_right: {}, risetime: 1)", r.gen_range(0..3), r.gen_range(0..3)),
+                2 => format!("gaussian(duration: {d}, fwhm: 2, t0: 3)"),
+                _ => format!("flat(duration: {d}, iq: 1)"),
+            };
+            format!("{nb}PULSE {} {wf}", frame_ref(r, frames))
+        }
+        25..=34 => format!("{nb}CAPTURE {} flat(duration: {d}, iq: 1) ro[{}]", frame_ref(r, frames), r.gen_range(0..4)),
+        35..=42 => format!("{nb}RAW-CAPTURE {} {d} raw", frame_ref(r, frames)),
+        43..=52 => format!("DELAY {} {d}", some_qubits(r)),
+        53..=62 => {
+            let k = r.gen_range(1..=2);
+            let ns: Vec<String> = (0..k).map(|_| format!("\"{}\"", names.choose(r).unwrap())).collect();
+            format!("DELAY {} {} {d}", some_qubits(r), ns.join(" "))
+        }
+        63..=68 => "FENCE".to_string(),
+        69..=80 => format!("FENCE {}", some_qubits(r)),
+        81..=92 => {
+            let op = ["SET-FREQUENCY", "SET-PHASE", "SET-SCALE", "SHIFT-FREQUENCY", "SHIFT-PHASE"].choose(r).unwrap();
+            format!("{op} {} 1", frame_ref(r, frames))
+        }
+        _ => format!("SWAP-PHASES {} {}", frame_ref(r, frames), frame_ref(r, frames)),
+    }
+}
+
+/// random calibration table: gate heads G0..Gk on fixed qubits; later calibrations may call earlier ones
+pub fn random_cals(r: &mut impl Rng, frames: &[Value], n: usize, wf_names: &[String]) -> Vec<Value> {
+    let mut cals: Vec<Value> = vec![];
+    for k in 0..n {
+        let len = r.gen_range(0..=3);
+        let mut body = vec![];
+        for _ in 0..len {
+            if k > 0 && r.gen_bool(0.25) {
+                body.push(s(&cals[r.gen_range(0..k)], "head"));
+            } else {
+                body.push(random_timed(r, frames, wf_names));
+            }
+        }
+        cals.push(json!({"head": format!("G{k} {}", k % 2), "body": body}));
+    }
+    cals
+}
+
+pub fn drive(ctx: &Ctx) -> Summary {
+    let n = ctx.arg_u64("n", 100);
+    let max_len = ctx.arg_u64("len", 10) as usize;
+    let path = ctx.arg_str("out").expect("--out");
+    let mut out = std::io::BufWriter::new(std::fs::File::create(path).expect("create trace"));
+    let mut rng = util::rng(ctx.seed, 25);
+    let tables = frame_tables();
+    let mut sum = Summary::default();
+    for h in 0..n {
+        let frames = &tables[(h % tables.len() as u64) as usize];
+        let with_wf = rng.gen_bool(0.5);
+        let wfs = if with_wf { vec![json!({"name": "w", "len": 4})] } else { vec![] };
+        let ncals = rng.gen_range(1..=3);
+        let wf_names: Vec<String> = if with_wf { vec!["w".to_string()] } else { vec![] };
+        let cals = if rng.gen_bool(0.6) { random_cals(&mut rng, frames, ncals, &wf_names) } else { vec![] };
+        let len = if h < 2 { 1 } else { rng.gen_range(2..=max_len) };
+        let untimed = rng.gen_range(0..12) == 0;
+        let mut src = vec![];
+        for _ in 0..len {
+            if !cals.is_empty() && rng.gen_bool(0.3) {
+                src.push(s(cals.choose(&mut rng).unwrap(), "head"));
+            } else if untimed && rng.gen_bool(0.2) {
+                src.push(["NOP", "RESET 0", "MOVE ro[0] 1", "H 2"].choose(&mut rng).unwrap().to_string());
+            } else {
+                src.push(random_timed(&mut rng, frames, &wf_names));
+            }
+        }
+        let program = build_program(frames, &wfs, &cals, "", &src);
+        let obs = observe_block(&program, frames, 0).expect("one block");
+        let case = json!({"frames": frames, "wfs": wfs, "cals": cals, "src": src});
+        let mut o = Outcome::ok(obs.flat_sched.is_ok() && obs.flat.len() >= 2);
+        // Rust-side evaluation of the property (TLC evaluates it again, with the module's own definitions, on the
+        // recorded events)
+        let mut exact = true;
+        if let Ok((items, total)) = &obs.flat_sched {
+            exact = items.iter().all(|x| as_int(x.1).is_some() && as_int(x.2).is_some()) && as_int(*total).is_some();
+            let summ = quilt_summaries(&obs, frames, &wfs);
+            if summ.iter().all(|x| x.dur.is_some()) {
+                for f in property_failures(&summ, &obs) {
+                    o.violate(Violation::new(&f.0, json!("property C25"), json!({"expanded_block": sched_json(&obs.flat_sched),
+                        "source_block": sched_json(&obs.src_sched)})).note(f.1));
+                }
+            } else {
+                // the real call computed a schedule although the specification knows no duration: Ok/Err is not judged
+                o.diverge("schedule computed for a block with an instruction without documented duration");
+            }
+            if !exact && o.violations.is_empty() {
+                o.violate(Violation::new("documented_duration", json!("integer times for integer durations"), sched_json(&obs.flat_sched)));
+            }
+        }
+        if exact {
+            let src_abs: Vec<Value> = obs
+                .exp
+                .iter()
+                .zip(&obs.src)
+                .map(|(e, t)| json!({"text": t, "exp": e.iter().map(abs_instr).collect::<Vec<_>>()}))
+                .collect();
+            let sets: Vec<Value> = (0..obs.flat.len()).map(|j| json!({"use": obs.used[j], "blk": obs.blocked[j]})).collect();
+            util::emit(&mut out, &json!({"ev": "reset", "frames": frames, "wfs": wfs, "cals": cals, "src": src_abs,
+                "real_frames": sets, "real_ok": obs.flat_sched.is_ok(),
+                "edges": obs.edges.iter().map(|e| json!([e.0 + 1, e.1 + 1])).collect::<Vec<_>>()}));
+            let mut events = 1;
+            match &obs.flat_sched {
+                Ok((items, total)) => {
+                    for (i, a, d) in items {
+                        util::emit(&mut out, &json!({"ev": "item", "index": i + 1, "start": as_int(*a), "dur": as_int(*d)}));
+                        events += 1;
+                    }
+                    util::emit(&mut out, &json!({"ev": "done", "ok": true, "total": as_int(*total)}));
+                }
+                Err(_) => util::emit(&mut out, &json!({"ev": "done", "ok": false, "total": 0})),
+            }
+            match &obs.src_sched {
+                Ok((spans, sdur)) if spans.iter().all(|x| as_int(x.1).is_some() && as_int(x.2).is_some()) && as_int(*sdur).is_some() => {
+                    util::emit(&mut out, &json!({"ev": "spans", "ok": true, "sdur": as_int(*sdur),
+                        "spans": spans.iter().map(|(i, a, d)| json!({"src": i + 1, "start": as_int(*a), "dur": as_int(*d)})).collect::<Vec<_>>()}));
+                }
+                Ok(_) => {
+                    o.violate(Violation::new("spans_cover", json!("integer spans"), sched_json(&obs.src_sched)));
+                    util::emit(&mut out, &json!({"ev": "spans", "ok": false, "sdur": 0, "spans": []}));
+                }
+                Err(_) => util::emit(&mut out, &json!({"ev": "spans", "ok": false, "sdur": 0, "spans": []})),
+            }
+            o.count_n("events", events + 2);
+            if obs.exp.iter().any(|e| e.len() != 1) {
+                o.count("calibrated_blocks");
+            }
+            if obs.flat_sched.is_err() {
+                o.count("err_histories");
+            }
+        }
+        sum.absorb(&case, &o, true);
+    }
+    sum
 }
